@@ -8,8 +8,9 @@ CONSTANTS
   RejectChoices = {TRUE,FALSE}
   MaxPairChoices = {0,1}
   Classes = {"A","X"}
+  PlainStrats = {}
   PairLevelOnly = FALSE
-  Variant = "D22"
+  Variant = "D103"
 INVARIANT TypeOK
 INVARIANT Inv_C01_Once
 INVARIANT Inv_C01_AtMostOnce
